@@ -226,6 +226,19 @@ def parameterisation(ctx, rule="TABLE-parameterisation"):
                 "the docstring describes the number of trials until the first success; tfd.Geometric (and the property) count failures before the first success", ctx.loc(mod, docs["geometric"][0]))
     else:
         ctx.ok("DOC-parameters", "distributions.geometric (semantics)")
+    # documented semantics of negative_binomial.total_count: tfd.NegativeBinomial counts successes before `total_count` *failures*;
+    # describing total_count as the number of successes documents a different distribution (mean total_count*(1-p)/p instead of
+    # total_count*p/(1-p)).  Only the contradiction is armed: the parameter's line calls it a number of successes and not of failures.
+    nb = docs.get("negative_binomial")
+    if nb is not None:
+        line = next((ln_ for ln_ in nb[3].splitlines() if ln_.strip().startswith("total_count")), "")
+        low = line.lower()
+        if "success" in low and not any(w in low for w in ("failure", "unsuccessful", "negative")):
+            ctx.bad("DOC-parameters", "distributions.negative_binomial (semantics)", "docstring calls total_count the number of successes",
+                    "tfd.NegativeBinomial(total_count, probs) is the number of successes observed before `total_count` failures (logpdf(2., 3., probs=0.3) = log C(4,2) 0.3^2 0.7^3 = "
+                    "-1.686); the docstring reads as the opposite convention, under which the same call would be -2.53", ctx.loc(mod, nb[0]))
+        else:
+            ctx.ok("DOC-parameters", "distributions.negative_binomial (semantics)")
     ctx.sample({"rule": rule, "signature_source": origin, "flip": "tfd.Bernoulli(probs=p, dtype=jnp.bool_)"})
 
 
